@@ -236,6 +236,16 @@ var registry = []*bigslice.FuncValue{
 	}),
 	/* 17 */ bigslice.Func(func(a *exec.Result, b bigslice.Slice, shards int) bigslice.Slice { return joinSum(shards, a, b) }),
 	/* 18 */ bigslice.Func(func(a, b, c bigslice.Slice, shards int) bigslice.Slice { return joinSum(shards, a, b, c) }),
+	// 19-23: REPEATED parameter types (two slices, two structs, two maps, two pointers,
+	// and interleaved): each argument must arrive as itself, not mixed with its siblings
+	/* 19 */ bigslice.Func(func(a, b []int) bigslice.Slice { return buildFrom(descAll(a, b), 0) }),
+	/* 20 */ bigslice.Func(func(a, b T) bigslice.Slice { return buildFrom(descAll(a, b), 0) }),
+	/* 21 */ bigslice.Func(func(a, b map[string]int) bigslice.Slice { return buildFrom(descAll(a, b), 0) }),
+	/* 22 */ bigslice.Func(func(a, b *T) bigslice.Slice { return buildFrom(descAll(a, b), 0) }),
+	/* 23 */ bigslice.Func(func(a []int, t T, b []int, m map[string]int, u T, n map[string]int) bigslice.Slice {
+		return buildFrom(descAll(a, t, b, m, u, n), 0)
+	}),
+	/* 24 */ bigslice.Func(func(a, b, c []int) bigslice.Slice { return buildFrom(descAll(a, b, c), 0) }),
 }
 
 func sum(xs ...[]int) int {
@@ -315,6 +325,12 @@ var paramDomains = map[int][][]val{
 	12: {domT, domPT, domAny, domAny},
 	13: {domShard, domShape},
 	14: {domAny},
+	19: {domInts, domInts},
+	20: {domT, domT},
+	21: {domMap, domMap},
+	22: {domPT, domPT},
+	23: {domInts[3:], domT[:2], domInts[3:], domMap[3:], domT[:2], domMap[3:]},
+	24: {domInts[2:], domInts[2:], domInts[2:]},
 }
 
 // named domains, so that a value can be named across processes as "<domain>/<label>"
